@@ -237,7 +237,7 @@ def line_element(c):
 
 def _tree(c, shape):
     """shape: nested tuples ('g', children...) / 'p' (a path leaf).  Every element carries a
-    transform attribute; returns (root, leaves=[(elem, (a,b), [matrices outermost first])])"""
+    transform attribute, except 'p-' leaves and ('g-', ...) groups; returns (root, leaves=[(elem, (a,b), [matrices outermost first])])"""
     counter = [0]
     mats = {}
     leaves = []
@@ -254,6 +254,20 @@ def _tree(c, shape):
         return key, M
 
     def build(node, chain):
+        bare = (node if isinstance(node, str) else node[0]).endswith('-')      # 'p-' / ('g-', ...): no transform attribute
+        if bare:
+            if node == 'p-':
+                a, b = c.cplx('a%d' % len(leaves)), c.cplx('b%d' % len(leaves))
+                c.assume(ops.ne(a, b))
+                if c.mode == 'sym':
+                    from pyvc import interp as I
+                    d = I.TokStr(['M ', I.Num(ops.re(a)), ',', I.Num(ops.im(a)), ' L ', I.Num(ops.re(b)), ',', I.Num(ops.im(b))])
+                else:
+                    d = 'M %r,%r L %r,%r' % (a.real, a.imag, b.real, b.imag)
+                e = c.element('path', {'d': d})
+                leaves.append((e, (a, b), list(chain)))
+                return e
+            return c.element('g', {}, [build(ch, list(chain)) for ch in node[1:]])
         key, M = tf()
         if node == 'p':
             a, b = c.cplx('a%d' % len(leaves)), c.cplx('b%d' % len(leaves))
@@ -288,7 +302,9 @@ def _product(chain):
     return M
 
 
-TREES = {'leaf-in-root': ('g', 'p'), 'nested': ('g', ('g', 'p')), 'siblings': ('g', 'p', ('g', 'p'), 'p'), 'deep': ('g', ('g', ('g', 'p'), 'p'))}
+TREES = {'leaf-in-root': ('g', 'p'), 'nested': ('g', ('g', 'p')), 'siblings': ('g', 'p', ('g', 'p'), 'p'), 'deep': ('g', ('g', ('g', 'p'), 'p')),
+         # elements WITHOUT a transform attribute below elements with one (they inherit the matrix, not the attribute)
+         'bare-leaf': ('g', 'p-'), 'bare-group-between': ('g', ('g-', 'p-'), 'p'), 'bare-leaf-two-levels-down': ('g', ('g', 'p-', 'p'))}
 
 
 def _non_identity(c, M):
